@@ -17,6 +17,7 @@ CHECKS = {
  'C10': ('A', 'exploration', '5', 'after every state-changing event of every run the stored volume is compared with the volumes of the contents, and a seeded panel of observers (get_volume, get_concentration, get_volumes, get_moles, get_substances, Plate.get_volume) is compared with the definition evaluated in exact arithmetic on the abstraction of the real contents', 'deterministic simulation: observers read after every event of seeded histories, compared with an exact model'),
  'C11': ('A', 'exploration', '5', 'post-condition after every dilute / fill_to event on states reached by seeded histories: only the solvent grew, target met in its own unit (model arithmetic on the real result), capacity respected, infeasible targets refused', 'deterministic simulation (history part): post-conditions on reachable states against an exact model'),
  'C17': ('A', 'exploration', '5', 'after every remove event: selected substances absent from every addressed well, every other amount bit-identical, volume equals the remaining contents, wells not addressed identical; per-well differential against Container.remove', 'deterministic simulation: seeded histories with remove events, model filter oracle'),
+ 'C19': ('A', 'exploration', '5', 'every instruction line appended by a container operation and every RecipeStep.instructions of a baked recipe is parsed back to (amount, unit, substance / vessel) and compared, within the displayed precision, with the amounts the simulator recorded for that event (model step / ledger delta); earlier instruction text must survive as a prefix; every call of the two rescaling helpers made during the runs is monitored (value x prefix out must denote the same physical amount as in)', 'deterministic simulation (history part): monitor of the instruction log and of the rescaling helpers against the simulator\'s own record along seeded histories'),
 }
 
 NOT_APPLICABLE = {
